@@ -45,6 +45,7 @@ class ContractSet:
             from .lib_nx import GRAPH_FIELDS
             for g in ("Graph", "DiGraph"):
                 self.classes[g] = {"file": None, "fields": {f: parse_kind(k) for f, k in GRAPH_FIELDS.items()}}
+        self.native_only = set(getattr(mod, "NATIVE_ONLY", []))
         self.functions = dict(getattr(mod, "FUNCTIONS", {}))
         self.lemmas = dict(getattr(mod, "LEMMAS", {}))
         self.spec_funcs = {n: f for n, f in self.spec_mod.funcs.items() if "." not in n}
